@@ -1,32 +1,30 @@
-\* generated by lib/gen_cfgs.py from lib/props.py - do not edit
-SPECIFICATION Spec
+\* liveness of collections (C06): small scope, no VIEW, no history
+SPECIFICATION LiveSpec
 CONSTANTS
   N = 2
   NS = 1
   NP = 0
-  NW = 1
+  NW = 0
   FIN = TRUE
   WEAK = TRUE
   DBG = TRUE
   MAXRC = 16382
   MAXWC = 32767
   MaxRoots = 2
-  MaxWRoots = 2
+  MaxWRoots = 0
   MaxOps = 6
   MaxFaults = 0
   MaxTraceK = 0
   BUG_STALE_TC = FALSE
   BUG_NESTED_FLAGS = FALSE
-  OPS = {"clone", "collect", "downgrade", "drop", "dropw", "new", "put", "sat", "unwrap", "upgrade"}
+  OPS = {"new", "drop", "set", "clonef", "collect", "clear"}
   AUTOF = TRUE
   AUTO0 = FALSE
   SZ = 160
   CLEAN = FALSE
   MaxActs = 0
+  RECORD = FALSE
   BUG_CLEAN_REENTRANT = FALSE
-  RECORD = TRUE
-INVARIANT NoViolation
 INVARIANT StructInv
-VIEW View
+PROPERTY CollectionEnds
 CHECK_DEADLOCK FALSE
-ACTION_CONSTRAINT EmitBehaviour
